@@ -116,8 +116,13 @@ def run(ch, build):
                 ch.violation(desc, {"scenario": scn, "what": "establishment failed although the keys are equal after zero padding", "err": res.get("errtext")})
             if v in ("wrongpw", "prefix", "emptypw") and res["err"] != "ErrIncorrectPassword":
                 ch.violation(desc, {"scenario": scn, "what": "a wrong RAKP 2 code must yield ErrIncorrectPassword, got %s (%s)" % (res["err"], res.get("errtext"))})
-            if scn.get("mutation") and scn["mutation"][1].startswith("setbytes:17") and res["err"] == "nil":
-                ch.violation(desc, {"scenario": scn, "what": "non-OK status accepted"})
+            pass
+        if res["err"] == "nil" and scn.get("mutation") and scn["mutation"][1].startswith("setbytes:17="):
+            ch.violation(desc, {"scenario": scn, "what": "a session was returned although handshake reply %d carried the non-OK status %s"
+                                % (scn["mutation"][0] + 1, scn["mutation"][1].split("=")[1])})
+        if res["err"] == "nil" and scn.get("mutation") and scn["mutation"][1].startswith("setbytes:16="):
+            ch.violation(desc, {"scenario": scn, "what": "a session was returned although handshake reply %d carried the mismatched message tag %s"
+                                % (scn["mutation"][0] + 1, scn["mutation"][1].split("=")[1])})
         if res["err"] == "nil" and scn.get("mutation") and scn["mutation"][1].startswith("flip:"):
             ex, mu = scn["mutation"]; bit = int(mu.split(":")[1])
             n = len(res["delivered"][ex]) // 2 if ex < len(res["delivered"]) else 0
